@@ -15,7 +15,23 @@ from .seqexp import SeqError
 from .rustscan import ScanError
 
 HERE = os.path.dirname(os.path.dirname(os.path.abspath(__file__)))
-GEN = os.environ.get('GV_GEN_DIR', os.path.join(HERE, 'gen'))
+# generated Verus files go to a directory of this process alone (two checks running at the same time would otherwise rewrite each
+# other's input files while Verus reads them).  It is kept after the run so that evidence / replay files can point at the verified
+# text; directories of finished processes older than two hours are removed at the next start.  GV_GEN_DIR pins the directory.
+if os.environ.get('GV_GEN_DIR'):
+    GEN = os.environ['GV_GEN_DIR']
+else:
+    _base = os.path.join(HERE, 'gen')
+    GEN = os.path.join(_base, 'run_%d' % os.getpid())
+    try:
+        import shutil as _sh
+        for _d in os.listdir(_base) if os.path.isdir(_base) else []:
+            _m = re.match(r'^run_(\d+)$', _d)
+            _p = os.path.join(_base, _d)
+            if _m and not os.path.exists('/proc/%s' % _m.group(1)) and time.time() - os.path.getmtime(_p) > 7200:
+                _sh.rmtree(_p, ignore_errors=True)
+    except OSError:
+        pass
 EVID = os.environ.get('GV_EVID_DIR', os.path.join(HERE, 'evidence'))
 REPLAY = os.environ.get('GV_REPLAY_DIR', os.path.join(HERE, 'replays'))     # not 'replay': that is the ./replay script
 REPO = os.environ.get('GECS_REPO', '/repo')
